@@ -104,15 +104,16 @@ fn c07_polls(b: usize, l: usize, depth: u8) {
     let p = unsafe { CLK.polls };
     vassert!(unsafe { CLK.max_nodes_between_polls } <= 2, "C07: more than two nodes entered between two consecutive clock polls");
     vassert!(p <= max_polls(b, l, depth), "C07: more clock polls than the case split over interruption points covers");
-    vcover!(p == max_polls(b, l, depth), "maximum number of polls reached");
+    vcover!(p >= 4, "a search that polls at least four times");
     core::mem::forget(s);
 }
-/// upper bound on polls of a complete search: per iteration 2 in find_best_move, plus one per move-loop
-/// iteration of every node that can be visited (each node of the tree at most once per iteration)
+/// upper bound on polls of a complete search: per iteration 2 in find_best_move, one per move-loop round of every
+/// node that has a move loop (negamax or quiescence), and one after the move loop of every negamax node (the
+/// "do not cache when the clock says stop" guard) - each node of the tree is visited at most once per iteration
 pub fn max_polls(b: usize, l: usize, depth: u8) -> u32 {
     let mut internal = 0u32; let mut w = 1u32; let mut i = 0;
     while i < l { internal += w; w *= b as u32; i += 1; }
-    (depth as u32) * (2 + internal * b as u32)
+    (depth as u32) * (2 + internal * (b as u32 + 1))
 }
 search_harness!(c07_polls_d1_b2_q1, 4, { c07_polls(2, 2, 1); });
 search_harness!(c07_polls_d2_b2_q0, 4, { c07_polls(2, 2, 2); });
